@@ -22,7 +22,8 @@ Fixpoint remove_nth {A} (n : nat) (l : list A) : list A :=
 Fixpoint insert_at {A} (n : nat) (x : A) (l : list A) : list A :=
   match n, l with O, _ => x :: l | S k, [] => [x] | S k, y :: r => y :: insert_at k x r end.
 
-(* the duplicate loop of exact.py:288-293, popping while enumerating *)
+(* exact.py 288-293: `for j, itemj in enumerate(A): if itemj == [b, d]: duplicate += 1; A.pop(j) else: break`
+   - popping while enumerating, so the index advances over a list that shrinks and a copy can be skipped *)
 Fixpoint dup_loop (fuel j : nat) (A : list bar) (bd : bar) (dup : nat) : nat * list bar :=
   match fuel with O => (dup, A) | S f =>
     match nth_error A j with
@@ -30,12 +31,15 @@ Fixpoint dup_loop (fuel j : nat) (A : list bar) (bd : bar) (dup : nat) : nat * l
     | Some x => if bar_eqb x bd then dup_loop f (S j) (remove_nth j A) bd (S dup) else (dup, A)
     end end.
 
+(* exact.py 308-312: the first item with item[1] > d, and its index *)
 Fixpoint find_gt (d : Q) (A : list bar) (i : nat) : option (nat * bar) :=
   match A with [] => None | x :: r => if Qlt_bool d (snd x) then Some (i, x) else find_gt d r (S i) end.
 
+(* exact.py 331-335: ind = first i with b' <= A[i][0], len(A) if none *)
 Fixpoint first_ge_birth (bp : Q) (A : list bar) (i : nat) : nat :=
   match A with [] => i | x :: r => if Qle_bool bp (fst x) then i else first_ge_birth bp r (S i) end.
 
+(* exact.py 337-347: if b' == A[ind][0], ind += #{items with birth b' and death > d} *)
 Definition insert_pos (bp d : Q) (A : list bar) : nat :=
   let ind := first_ge_birth bp A 0 in
   if Nat.eqb ind (length A) then ind
@@ -45,6 +49,9 @@ Definition insert_pos (bp d : Q) (A : list bar) : nat :=
                    else ind
        | None => ind end.
 
+(* exact.py 295-358: the while loop of one depth.  298-300 exit test `all(d >= _[1] for _ in A)`;
+   315-316 Case I (b' > d: point (d,0)); 319-320 Case II (b' >= d: point (b',0)); 323-351 Case III (crossing
+   point, re-insertion of (b',d)); 353-358 the peak of (b',d') and (b,d) := (b',d') *)
 Fixpoint inner (fuel : nat) (acc : list pt) (b d : Q) (A : list bar) : option (list pt * list bar) :=
   match fuel with O => None | S f =>
     if forallb (fun x => Qle_bool (snd x) d) A then Some (acc ++ [(d, 0)], A)
@@ -59,6 +66,8 @@ Fixpoint inner (fuel : nat) (acc : list pt) (b d : Q) (A : list bar) : option (l
              inner f (acc2 ++ [(half (bp + dp), half (dp - bp))]) bp dp A2
          end end.
 
+(* exact.py 272-360: `while A`: pop the first bar, the three initial points (283), the duplicate loop, the inner
+   loop, `duplicate` copies of the finished depth (302-304) *)
 Fixpoint outer (shortcut : bool) (fuel : nat) (A : list bar) : option (list (list pt)) :=
   match fuel with O => None | S f =>
     match A with
@@ -73,6 +82,7 @@ Fixpoint outer (shortcut : bool) (fuel : nat) (A : list bar) : option (list (lis
             | Some Ls => Some (L :: repeat L dup ++ Ls)
             end end end end.
 
+(* exact.py 270: A = sorted(A, key=lambda x: [x[0], -x[1]]);  364: critical_pairs without the -inf/+inf sentinels *)
 Definition sweep (shortcut : bool) (bars : list bar) : option (list (list pt)) :=
   outer shortcut (S (length bars)) (sort_bars bars).
 
@@ -84,7 +94,7 @@ Inductive outcome :=
 | Ok (L : list (list pt))
 | ErrIndex            (* IndexError: hom_deg out of range, or (pinned code) A[-1] on an empty diagram *)
 | ErrNonFinite        (* an infinite bar that is not the trailing one: outside the property *)
-| ErrFuel.            (* never returned: see sweep_total in Properties/C03.v *)
+| ErrFuel.            (* fuel exhausted; never returned with the shortcut off (sweep_correct proves Some) *)
 
 Definition is_inf (a : ebar) : bool := match snd a with None => true | Some _ => false end.
 Definition strip_trailing_inf (A : list ebar) : list ebar :=
@@ -110,4 +120,41 @@ Definition exact_landscape (shortcut guard_empty : bool) (dgms : list (list ebar
       | None => ErrNonFinite
       | Some bars => match sweep shortcut bars with Some L => Ok L | None => ErrFuel end
       end
+  end.
+
+(* does the repeated-bar shortcut fire (duplicate > 0) in some pass of the Legacy run?  Computable;
+   this is what the guarded source hook ("dup_shortcut", duplicate) reports. *)
+Fixpoint outer_fires (fuel : nat) (A : list bar) : bool :=
+  match fuel with O => false | S f =>
+    match A with
+    | [] => false
+    | (b, d) :: A0 =>
+        let '(dup, A1) := dup_loop (length A0) 0 A0 (b, d) 0 in
+        match dup with
+        | S _ => true
+        | O => match inner (S (length A1)) [(b, 0); (half (b + d), half (d - b))] b d A1 with
+               | None => false
+               | Some (_, A2) => outer_fires f A2
+               end
+        end
+    end end.
+Definition shortcut_fires (bars : list bar) : bool := outer_fires (S (length bars)) (sort_bars bars).
+
+(* the trace the guarded hook records: one entry `duplicate` per pass in which duplicate > 0 *)
+Fixpoint outer_trace (fuel : nat) (A : list bar) : list nat :=
+  match fuel with O => [] | S f =>
+    match A with
+    | [] => []
+    | (b, d) :: A0 =>
+        let '(dup, A1) := dup_loop (length A0) 0 A0 (b, d) 0 in
+        match inner (S (length A1)) [(b, 0); (half (b + d), half (d - b))] b d A1 with
+        | None => []
+        | Some (_, A2) => (match dup with O => [] | S _ => [dup] end) ++ outer_trace f A2
+        end
+    end end.
+Definition shortcut_trace (bars : list bar) : list nat := outer_trace (S (length bars)) (sort_bars bars).
+Definition landscape_trace (dgms : list (list ebar)) (h : nat) : list nat :=
+  match nth_error dgms h with
+  | Some (x :: r) => match finite_bars (strip_trailing_inf (x :: r)) with Some bars => shortcut_trace bars | None => [] end
+  | _ => []
   end.
